@@ -253,7 +253,7 @@ def gen_vis(rng, n, tier):
     for _ in range(n):
         k = rng.randint(2, 12)
         pts = gen_pts(rng, rng.choice([1, 0.25, 0.5]), k, True)
-        out.append({'pts': pts, 'eps': rng.choice([0.125, 0.5, 1, 2, 4, 8, 32, 1024]), 'tmode': rng.choice(['inc', 'inc', 'equal', 'dec', 'shuffle'])})
+        out.append({'pts': pts, 'eps': rng.choice([0.125, 0.5, 1, 2, 4, 8, 32, 1024]), 'tmode': rng.choice(['inc', 'inc', 'equal', 'dec', 'shuffle']), 'orphan': rng.random() < 0.2})
     return out
 
 
@@ -261,8 +261,17 @@ def run_vis(case):
     import sys, tracklib.algo.simplification
     sp = sys.modules['tracklib.algo.simplification']
     tr = mktrack(case['pts'], case.get('tmode', 'inc'))
+    if case.get('orphan') and tr.size() >= 2:
+        # the track is the concatenation of two recordings, the first of which carried a computed feature (its abscissa): the sum lists no feature (the lists differ),
+        # its observations still carry the values
+        import tracklib.algo.cinematics
+        ci = sys.modules['tracklib.algo.cinematics']
+        h = max(1, tr.size() // 2)
+        A = tr.extract(0, h - 1); B = tr.extract(h, tr.size() - 1) if h < tr.size() else None
+        ci.computeAbsCurv(A)
+        tr = A + B if B is not None else A
     out = sp.simplify(tr, case['eps'], sp.MODE_SIMPLIFY_VISVALINGAM)
-    return {'kept': kept(out), 'src': tr.size(), 'names': out.getListAnalyticalFeatures()}
+    return {'kept': kept(out), 'src': tr.size(), 'names': [nm for nm in out.getListAnalyticalFeatures() if nm != 'abs_curv']}
 
 
 def coq_vis(case, obs):
